@@ -553,11 +553,81 @@ def header_level(ctx):
             real_auth._login = orig_login
 
 
+def login_cache_staleness_level(ctx):
+    """cache_logins = True in front of htpasswd: a credential the file no longer holds may be answered from the login cache only
+    until the configured expiry after the BACK-END last accepted it - however often it is presented in between (the model of the
+    cache itself, with all its clocks and histories, is C17's; here the oracle is the file)."""
+    import radicale.auth as rauth
+    from radicale import auth, config
+    quiet_radicale()
+    rng = ctx.rng("logincache-stale")
+    real_time = rauth.time
+    NS = 1_000_000_000
+
+    class Clock:
+        now = 1_700_000_000 * NS
+
+        def time_ns(self):
+            return self.now
+
+        def time(self):
+            return self.now / NS
+
+        def sleep(self, s):
+            pass
+    try:
+        for i in range(ctx.n(25, 800)):
+            clock = Clock()
+            rauth.time = clock
+            expiry = rng.choice([2, 5, 15, 60])
+            f = tempfile.NamedTemporaryFile("w", suffix=".htpasswd", delete=False, encoding="utf-8")
+            f.write("alice:old-secret\nbobby:other\n")
+            f.close()
+            try:
+                conf = config.load()
+                conf.update({"auth": {"type": "htpasswd", "htpasswd_filename": f.name, "htpasswd_encryption": "plain", "htpasswd_cache": "False",
+                                      "delay": "0", "cache_logins": "True", "cache_successful_logins_expiry": str(expiry),
+                                      "cache_failed_logins_expiry": str(rng.choice([1, 90]))}}, "verif", privileged=True)
+                a = auth.load(conf)
+                first = a.login("alice", "old-secret")[0]
+                accepted_at = clock.now
+                change = rng.choice(["changed", "removed"])
+                with open(f.name, "w", encoding="utf-8") as g:
+                    g.write("alice:new-secret\nbobby:other\n" if change == "changed" else "bobby:other\n")
+                steps = []
+                for _ in range(rng.randint(3, 14)):
+                    clock.now += int(rng.uniform(0.1, 0.9) * expiry * NS)
+                    if rng.random() < 0.2:
+                        a.login("bobby", "other")
+                    got = a.login("alice", "old-secret")[0]
+                    age = (clock.now - accepted_at) / NS
+                    steps.append((round(age, 2), got))
+                    case = {"expiry_s": expiry, "file_change": change, "presented (age since the back-end accepted it, answer)": list(steps)}
+                    ctx.case("login-cache-stale:%s:%s" % (change, "within" if age < expiry + 1 else "beyond"), sample=case, key=[i, len(steps)],
+                             nontrivial=age >= expiry + 1)
+                    if first != "alice":
+                        ctx.violation("a credential of the file was refused (%r)" % first, case)
+                        break
+                    # (the age is compared in whole seconds - `int(age) > expiry` - so an entry lives for less than expiry + 1 s)
+                    if age >= expiry + 1 and got == "alice":
+                        ctx.violation("the password the file no longer holds still logs in %.2f s after the back-end last accepted it "
+                                      "(cache_successful_logins_expiry = %d s)" % (age, expiry), case, "", got)
+                        break
+                if change == "changed":
+                    clock.now += 91 * NS
+                    if a.login("alice", "new-secret")[0] != "alice":
+                        ctx.violation("the new password of the file does not log in", {"expiry_s": expiry, "steps": steps})
+            finally:
+                os.unlink(f.name)
+    finally:
+        rauth.time = real_time
+
+
 def run(ctx):
     ctx.extra["rule"] = ("(a) generated htpasswd files (comments, blanks, colons / non-ASCII / leading blanks in passwords, five schemes side by "
                          "side, wrong-length and near-miss hashes) x encryption in {plain,md5,sha256,sha512,bcrypt,autodetect} x cache on/off x "
                          "12 attempts each; (a2) htpasswd_cache=True: histories of 3-10 file edits (same-size password change, user swapped, "
-                         "removed, added, touch only, 1 ns mtime steps) each followed by a login; (b) requests with every Authorization shape and identity headers against five back-ends; "
+                         "removed, added, touch only, 1 ns mtime steps) each followed by a login; (a3) cache_logins=True with a controlled clock: a password changed / removed in the file, presented again and again at intervals below the expiry, must stop logging in once the expiry has passed since the back-end accepted it; (b) requests with every Authorization shape and identity headers against five back-ends; "
                          "(c) raw Authorization header texts (well-formed pairs with colons / blanks / non-ASCII, scheme spellings, white space, Latin-1 and "
                          "invalid UTF-8 payloads, base-64 soup with junk, misplaced padding, dangling groups) through the real gate with a recording back-end; "
                          "non-trivial = an entry for the login exists / the request is not a plain anonymous one")
@@ -565,5 +635,6 @@ def run(ctx):
                     "LDAP/IMAP/PAM/OAuth2/Dovecot back-ends are outside the model (only the common gate applies)"]
     htpasswd_level(ctx)
     cache_history_level(ctx)
+    login_cache_staleness_level(ctx)
     gate_level(ctx)
     header_level(ctx)
